@@ -2,6 +2,8 @@ package bulk
 
 import (
 	"context"
+
+	insaneJSON "github.com/ozontech/insane-json"
 	"encoding/binary"
 	"sync"
 	"sync/atomic"
@@ -50,6 +52,9 @@ func vDecode(doc []byte) error {
 	return nil
 }
 func vIsObject() bool { return vCur.outcome == 0 }
+
+// vNoDecoder: the processor has no JSON decoder (its uses are replaced).
+func vNoDecoder(func() *insaneJSON.Root) *insaneJSON.Root { return nil }
 func vExtractDocTime(requestTime time.Time) (time.Time, []string) {
 	if vCur.found {
 		return vDocT, []string{"time"}
@@ -59,7 +64,7 @@ func vExtractDocTime(requestTime time.Time) (time.Time, []string) {
 
 // vSub stands for requestTime.Sub(docTime): an arbitrary duration (saturation included).
 func vSub(_, _ time.Time) time.Duration { return vCur.delay }
-func vRand() uint64 {
+func vRand(func() uint64) uint64 {
 	if vCur == nil {
 		return 7 // instance index of the pooled processor
 	}
